@@ -49,6 +49,11 @@ class ModuleInfo:
             if node.level:
                 base = ".".join(pkg[: len(pkg) - (node.level - 1)] + ([base] if base else []))
             for a in node.names:
+                if a.name == "*":
+                    if not hasattr(self, "star_imports"):
+                        self.star_imports = []
+                    self.star_imports.append(base)
+                    continue
                 self.imports[a.asname or a.name] = base + "." + a.name
         elif isinstance(node, ast.ClassDef):
             self.classes[node.name] = node
